@@ -5,6 +5,7 @@
 //!
 //!   replay run    <family> <case>            exit 0 = all oracles hold, 1 = some oracle fails (prints FAIL lines)
 //!   replay search <family> <prop> <seed> <budget>   prints `FOUND <case>` + FAIL lines, or `NOTFOUND`
+mod conv_family;
 mod io_family;
 mod rng;
 
@@ -19,6 +20,7 @@ fn main() {
         "run" => {
             let fails = match family {
                 "io" => io_family::run_case(&args[3]),
+                "conv" => conv_family::run_case(&args[3]),
                 _ => {
                     eprintln!("unknown family {}", family);
                     std::process::exit(2);
@@ -46,6 +48,7 @@ fn main() {
             let budget: u64 = args.get(5).and_then(|s| s.parse().ok()).unwrap_or(20000);
             let found = match family {
                 "io" => io_family::search(prop, seed, budget),
+                "conv" => conv_family::search(prop, seed, budget),
                 _ => {
                     eprintln!("unknown family {}", family);
                     std::process::exit(2);
